@@ -61,3 +61,45 @@ Proof. vm_compute. reflexivity. Qed.
 
 Lemma configure_code_is_ok : configure_code_ok Gen.Routes.configure_code = true.
 Proof. vm_compute. reflexivity. Qed.
+
+(** Round 6: the identity of the mux behind every server (Gen/RoutesMux.v),
+    and the declared table in front of its handlers ([Proofs/AuthMux.v]). *)
+From AGH Require Import Model.AuthMux Proofs.AuthMux Gen.RoutesMux.
+
+Definition gen_mux_ok : bool :=
+  mux_table_ok Gen.RoutesMux.mux_rows Gen.RoutesMux.mux_escapes Gen.RoutesMux.default_mentions Gen.RoutesMux.pprof_guarded.
+
+Definition gen_bad_mux_rows : list bytes :=
+  map mr_pos (List.filter (fun r => negb (row_private r)) Gen.RoutesMux.mux_rows).
+
+Lemma all_muxes_private : gen_mux_ok = true.
+Proof. vm_compute. reflexivity. Qed.
+
+Lemma gen_muxes_serve_declared {X} row :
+  In row Gen.RoutesMux.mux_rows ->
+  forall declared foreign : list (bytes * X), mux_content (mr_kind row) declared foreign = Some declared.
+Proof.
+  intros Hin. exact (table_muxes_private Gen.RoutesMux.mux_rows Gen.RoutesMux.mux_escapes Gen.RoutesMux.default_mentions
+                     Gen.RoutesMux.pprof_guarded all_muxes_private row Hin).
+Qed.
+
+(** The declared table of the current source behind a mux that carries
+    nothing else. *)
+Lemma gen_undeclared_not_served {A R} (hs : route -> handler A R) e (w : world A) r :
+  undeclared (map rt_pattern Gen.Routes.routes) (r_path r) = true ->
+  e_auth_required e = true -> is_public (r_path r) = false -> authenticated e (w_sess w) r = false ->
+  exists w' a, mux_serve (route_regs Gen.Routes.reg_method hs Gen.Routes.routes) e w r = (w', a) /\
+    w_app w' = w_app w /\ not_handler a /\ session_effect e w r w'.
+Proof.
+  exact (undeclared_path_not_served Gen.Routes.reg_empty Gen.Routes.reg_method Gen.Routes.routes Gen.Routes.bindings
+           Gen.Routes.muxes Gen.Routes.servers hs e w r all_routes_ok).
+Qed.
+
+(** The paths third-party packages are known to hang on the default mux are
+    undeclared in the current table (the premise above is satisfiable), a
+    declared path is not. *)
+Example gen_undeclared_ex :
+  undeclared (map rt_pattern Gen.Routes.routes) p_pprof_heap = true /\
+  undeclared (map rt_pattern Gen.Routes.routes) [47;100;101;98;117;103;47;118;97;114;115]%N = true /\   (* /debug/vars *)
+  undeclared (map rt_pattern Gen.Routes.routes) p_status = false.
+Proof. vm_compute. repeat split; reflexivity. Qed.
